@@ -434,6 +434,8 @@ type Contract struct {
 	Loops    map[int]*LoopSpec
 	Pure     bool
 	Trusted  bool // contract assumed, body not verified
+	ViewName string // set for `view NAME of FUNC` contracts
+	ViewOf   string // full key of the function the view belongs to
 	Inline   bool
 	External bool // from externals.spec: assumed
 	Emits    []*Clause
@@ -444,6 +446,7 @@ type Contract struct {
 	Notes    []string
 	Uses     []*Expr
 	Implements []string
+	SplitReturns bool // check the postconditions separately at every return statement (simpler terms than the merged state)
 	ExactEmits bool // the declared emits are exactly the function's own activation trace (checked)
 	Asserts    []*MidAssert
 }
@@ -452,6 +455,7 @@ type MidAssert struct {
 	Callee string // when set, N is the occurrence of calls to this callee
 	N  int
 	Cl *Clause
+	Before bool // `before Callee#k ...`: evaluated just before the call
 	CheckOnly bool // `after .. check`: proved but not assumed afterwards
 	Apply *Expr // lemma application instead of an assertion: premise proved, conclusion assumed
 	When  *Expr
@@ -501,6 +505,7 @@ type Specs struct {
 	Globals   []*GlobalFact
 	Ifaces    map[string]*Contract // "pkg.Iface.Method"
 	Axioms    map[string]*SpecFunc
+	Views     []*Contract // implementation-level contracts (view NAME of FUNC)
 }
 
 func NewSpecs() *Specs {
@@ -667,9 +672,18 @@ func (sp *Specs) LoadSpecLines(lines []string, pkg, file string, external bool) 
 				sp.TypeAttrs = append(sp.TypeAttrs, ta)
 			}
 			cur = nil
-		case "func", "iface":
-			// func KEY [for T in a,b,c]
+		case "func", "iface", "view":
+			// func KEY [for T in a,b,c]   |   view NAME of KEY : a second, implementation-level contract of a function whose
+			// main contract is trusted at call sites; the body is verified against the view
 			key := rest
+			viewName := ""
+			if word == "view" {
+				f := strings.SplitN(rest, " of ", 2)
+				if len(f) != 2 {
+					return fail(fmt.Errorf("expected: view NAME of FUNC"))
+				}
+				viewName, key, rest = strings.TrimSpace(f[0]), strings.TrimSpace(f[1]), strings.TrimSpace(f[1])
+			}
 			var insts []string
 			tv := ""
 			if i := strings.Index(rest, " for "); i >= 0 {
@@ -684,7 +698,15 @@ func (sp *Specs) LoadSpecLines(lines []string, pkg, file string, external bool) 
 			cur = nil
 			mk := func(k string) *Contract {
 				c := &Contract{Key: k, Pkg: pkg, File: file, Loops: map[int]*LoopSpec{}, External: external, Props: map[string]bool{}}
-				if word == "iface" {
+				if word == "view" {
+					full := k
+					if pkg != "" {
+						full = pkg + "::" + k
+					}
+					c.ViewName = viewName
+					sp.Views = append(sp.Views, c)
+					c.ViewOf = full
+				} else if word == "iface" {
 					ik := k
 					if pkg != "" && !strings.Contains(k, "/") && !strings.HasPrefix(k, "funcval ") {
 						ik = pkg + "." + k
@@ -784,9 +806,11 @@ func (c *Contract) addClause(word, rest string) error {
 			return fmt.Errorf("uses expects AXIOM(args)")
 		}
 		c.Uses = append(c.Uses, e)
+	case "splitreturns":
+		c.SplitReturns = true
 	case "exactemits":
 		c.ExactEmits = true
-	case "after":
+	case "after", "before":
 		// after N[-M] assert expr : intermediate assertion checked (and then assumed) after the N-th call instruction
 		f := strings.SplitN(rest, " ", 3)
 		if len(f) < 3 || (f[1] != "assert" && f[1] != "apply" && f[1] != "check") {
@@ -819,7 +843,7 @@ func (c *Contract) addClause(word, rest string) error {
 				if e.Kind != "call" {
 					return fmt.Errorf("after .. apply expects LEMMA(args)")
 				}
-				c.Asserts = append(c.Asserts, &MidAssert{Callee: name, N: occ, Cl: &Clause{E: e, Text: f[2]}, Apply: e, When: when})
+				c.Asserts = append(c.Asserts, &MidAssert{Callee: name, N: occ, Cl: &Clause{E: e, Text: f[2]}, Apply: e, When: when, Before: word == "before"})
 				return nil
 			}
 			tags, body := parseTags(f[2])
@@ -827,7 +851,7 @@ func (c *Contract) addClause(word, rest string) error {
 			if err != nil {
 				return err
 			}
-			c.Asserts = append(c.Asserts, &MidAssert{Callee: name, N: occ, Cl: &Clause{Tags: tags, E: e, Text: body}, CheckOnly: f[1] == "check"})
+			c.Asserts = append(c.Asserts, &MidAssert{Callee: name, N: occ, Cl: &Clause{Tags: tags, E: e, Text: body}, CheckOnly: f[1] == "check", Before: word == "before"})
 			return nil
 		}
 		if i := strings.Index(f[0], "-"); i >= 0 {
